@@ -19,7 +19,25 @@ def handle (f : String) (j : Json) : Except String Json := do
       let fw ← match ← str m "fwd" with
         | "escrow" => pure FwdKind.escrow | "burn" => pure FwdKind.burn | s => throw s!"bad fwd {s}"
       pure (FHop.mk r fw)
-    let o := routeOutcome mids (← bool j "failed")
+    -- what fails is derived by the MODEL from the scenario: the final receiver is no address, an
+    -- intermediate chain is told an unknown channel, the first hop times out (plain ICS-20 refund), or a
+    -- forwarded packet times out until PFM's retry budget is exhausted (timeout model: `afterTimeouts`)
+    let retries := (nat j "retries").toOption.getD 0
+    let timeouts := (nats j "timeouts").toOption.getD []
+    let badReceiver := (bool j "badReceiver").toOption.getD false
+    let badChannel := match j.getObjValAs? Int "badChannelAt" with | .ok n => decide (n ≥ 0) | .error _ => false
+    let n0 : Node := ⟨⟨0, 0, 0, 0, 0⟩, none, 1⟩
+    let gaveUp (i k : Nat) : Bool :=
+      let h := (mids[i - 1]?).getD ⟨.mint, .escrow⟩
+      (afterTimeouts h 1 (receiveAndForward h 1 retries true n0) (List.replicate k true)).flight.isNone
+    let exhausted := (timeouts.zipIdx.any fun (k, i) => i ≥ 1 && k > 0 && gaveUp i k)
+    let firstHopTimeout := (timeouts.head?.getD 0) > 0
+    let failed := badReceiver || badChannel || exhausted || firstHopTimeout
+    -- every intermediate chain that forwarded: receive, forward, its timeouts, and (on failure) the final refund
+    let restored := mids.zipIdx.all fun (h, i) =>
+      let k := (timeouts[i + 1]?).getD 0
+      (settleFailed h 1 (afterTimeouts h 1 (receiveAndForward h 1 retries true n0) (List.replicate k true))).m == n0.m
+    let o := if !failed then Outcome.delivered else if restored && mids.all FHop.restores then .refundedClean else .refundedDirty
     pure (Json.mkObj [("r", Json.str (match o with | .delivered => "delivered" | _ => "refunded")),
       ("clean", Json.bool (o == .refundedClean)), ("overridesEmpty", Json.bool true)])
   | _ => throw s!"unknown function {f}"
